@@ -35,7 +35,10 @@ RULE = ('Exhaustive enumeration of primitive spellings: all keys of ALL_PRIMITIV
         'program (sizeof, _Alignof, sign, limits macros, type compatibility) + object identity of the ctype '
         'across 7 routes (in-line typeof/cdef, C-backend parser, out-of-line ABI module, API module, '
         'new_primitive_type).  An evaluation is one accepted spelling checked on all legs; every accepted '
-        'spelling is non-trivial (rule: the name resolves); distinct by spelling.')
+        'spelling is non-trivial (rule: the name resolves); distinct by spelling.  In addition every '
+        'sequence of 1-4 of the 8 specifier keywords (4680) is given to the C-backend parser: what it accepts '
+        'must be accepted by the in-line parser as the same ctype object and be one of the spellings judged '
+        'against gcc (counted in specifier_sequences_*).')
 TECHNIQUE = 'exhaustive enumeration of the finite name set against gcc + cross-table identity'
 LEVEL_TEXT = ('The finite set of primitive names is enumerated completely on this platform; each is compared '
               'with what gcc reports and resolved through every name<->index table.')
@@ -365,6 +368,7 @@ def pre(ctx):
     # typeof()" without the compiler or the other tables knowing it)
     import itertools, cffi, _cffi_backend
     bare, inl = _cffi_backend.FFI(), cffi.FFI()
+    judged = set(sp for sp, _, _ in items)
     words = ['signed', 'unsigned', 'short', 'long', 'int', 'char', 'double', 'float']
     nseq = nacc = 0
     for n in range(1, 5):
@@ -383,6 +387,14 @@ def pre(ctx):
                          % (s, t, type(e).__name__, e), case={'names': [s]})
             if t1 is not t:
                 ctx.fail('%r: C backend typeof() gives %r, the in-line FFI %r' % (s, t, t1), case={'names': [s]})
+            if s not in judged:
+                # accepted by both parsers but not among the spellings compared with gcc above
+                try:
+                    cc.compile_shared('typedef %s verif_t;\n' % s, ctx.tmp, stem='c06seq%d' % nseq)
+                except cc.CompileFailed:
+                    ctx.fail('%r is accepted by both type-string parsers (as %r) but is not a type name in C '
+                             '(gcc rejects it)' % (s, t), case={'names': [s]})
+                raise HarnessError('%r is valid C and accepted by cffi but missing from the enumeration' % s)
     ctx.extra['specifier_sequences_enumerated'] = nseq
     ctx.extra['specifier_sequences_accepted_by_c_parser'] = nacc
     ctx.extra['exhaustive'] = True
